@@ -153,13 +153,13 @@ func init() {
 		return us
 	}})
 	register(&Check{Prop: "C12", Level: "model_checking",
-		Rule:        "deviation-bounded DFS over the fault phase of each scenario (message loss/duplication/reordering, timer order, crashes, storage faults, early client steps); when the script ends the faults stop (partitions healed, crashed servers restarted, no further deviations) and the run continues in the timed regime with pairwise distinct timeout jitter; the bound of 10 election timeouts of virtual time is checked on every execution; distinct = distinct final outcome",
+		Rule:        "deviation-bounded DFS over the fault phase of each scenario (message loss/duplication/reordering, timer order, crashes, storage faults, early client steps); when the script ends the faults stop (partitions healed, crashed servers restarted - except in promote-cut, where the old leader stays down and three of four voters remain - no further deviations) and the run continues in the timed regime with pairwise distinct timeout jitter; the bound of 10 election timeouts of virtual time is checked on every execution; distinct = distinct final outcome",
 		Assumptions: append([]string{"quiet phase: timed regime, zero message latency, distinct per-server jitter (two permutations); bound 10 x ElectionTimeout = 1s of virtual time"}, clusterAssumptions...),
 		Units: func(tier string) []Unit {
 			if tier == "thorough" {
-				return cat(scUnits(2, "conv-crash3", "conv-snap3", "conv-stale-suffix", "conv-majority-restart"), scUnits(1, "conv-snap3-mono", "conv-member", "conv-fig8", "conv-restore3-lagging", "conv-transfer", "conv2-crash3", "conv2-snap3", "conv2-stale-suffix", "conv2-member"))
+				return cat(scUnits(2, "conv-crash3", "conv-snap3", "conv-stale-suffix", "conv-majority-restart"), scUnits(1, "conv-snap3-mono", "conv-member", "conv-fig8", "conv-restore3-lagging", "conv-transfer", "conv2-crash3", "conv2-snap3", "conv2-stale-suffix", "conv2-member", "conv2-promote-cut"), scUnits(2, "conv-promote-cut"))
 			}
-			return scUnits(1, "conv-crash3", "conv-snap3", "conv-snap3-mono", "conv-stale-suffix", "conv-member", "conv-majority-restart", "conv-restore3-lagging")
+			return scUnits(1, "conv-crash3", "conv-snap3", "conv-snap3-mono", "conv-stale-suffix", "conv-member", "conv-majority-restart", "conv-restore3-lagging", "conv-promote-cut")
 		}})
 	clusterCheck("C18",
 		func() []Unit { return scUnits(1, "notify3") },
